@@ -29,15 +29,18 @@ def parseSeg (tok : String) : Option Seg :=
   else match tok.splitOn ":" with
     | [a, b] =>
       match a.toList, parseBody b with
-      | [m, p, c, e, s], some body =>
+      | m :: p :: c :: e :: s :: g, some body =>
+        if !(g == [] || g == ['g']) then none else
         let m? : Option Nat := if m == 'G' then some 0 else if m == 'H' then some 1 else if m == 'P' then some 2 else none
-        let c? : Option Nat := if c == 'n' then some 0 else if c == 'c' then some 1 else if c == 'k' then some 2 else none
+        let c? : Option Nat := if c == 'n' then some 0 else if c == 'c' then some 1 else if c == 'k' then some 2
+          else if c == 'C' then some 3 else if c == 'K' then some 4 else if c == 't' then some 5
+          else if c == 'm' then some 6 else none
         let e? : Option Expect := if e == 'n' then some .no else if e == 'e' then some .cont else if e == 'u' then some .unknown else none
         match m?, c?, e? with
         | some m, some c, some e =>
           if (p == '0' || p == '1') && (s == 'y' || s == 'o' || s == 'w') then
             some (.req { method := m, proto11 := p == '1', conn := c, expect := e, sent := s == 'y', body := body,
-                         waits := s == 'w' })
+                         waits := s == 'w', graceful := g == ['g'] })
           else none
         | _, _, _ => none
       | _, _ => none
@@ -84,7 +87,12 @@ def parseStarts (s : String) : Option (List (Nat × Option Nat)) :=
 
 def runCore (ka rq sc : String) (seg : Option String) (impl : String) : Ans :=
     match (rq.splitOn ";").mapM parseSeg, (if sc == "-" then some [] else (sc.splitOn ";").mapM parseScript) with
-    | some segs, some scs =>
+    | some segs0, some scs =>
+      -- graceful shutdown, once triggered by the handler of a request, holds for all later requests
+      let segs := (segs0.foldl (fun (acc : List Seg × Bool) sg =>
+        match sg with
+        | .req r => (acc.1 ++ [Seg.req { r with graceful := r.graceful || acc.2 }], acc.2 || r.graceful)
+        | x => (acc.1 ++ [x], acc.2)) ([], false)).1
       let o := serve (ka == "1") segs scs
       let verdict :=
         match impl.splitOn " " with
@@ -98,6 +106,8 @@ def runCore (ka rq sc : String) (seg : Option String) (impl : String) : Ans :=
         ["handled" ++ toString (min nh 4)] ++
         (if segs.any (fun s => match s with | .req r => r.expect == .cont | _ => false) then ["expect"] else []) ++
         (if segs.any (fun s => match s with | .req r => r.waits | _ => false) then ["waiting"] else []) ++
+        (if segs.any (fun s => match s with | .req r => r.graceful | _ => false) then ["graceful"] else []) ++
+        (if segs.any (fun s => match s with | .req r => r.conn ≥ 3 | _ => false) then ["conn-odd"] else []) ++
         (if segs.any (fun s => match s with | .req r => (match r.body with | .chunked _ _ => true | _ => false) | _ => false) then ["chunkedreq"] else []) ++
         (if segs.any (fun s => match s with | .req r => (match r.body with | .bad _ => true | _ => false) | _ => false) then ["badchunk"] else []) ++
         (if segs.any (fun s => match s with | .req _ => false | _ => true) then ["malformed"] else []) ++
